@@ -5,7 +5,8 @@ function per `make<Kind>Arshaler(...).unmarshal` of /repo/arshal_default.go.  Co
     unm o T j prior : Except Err GoVal
 
 is the value left in a destination of Go type `T` that held `prior`, after unmarshaling the JSON
-value whose tree is `j`; `.error` means the call reports an error (what is left in the
+value whose tree is `j`, under the option record `o` (`UOpts`: default options, plus
+`UnmarshalArrayFromAnyLength` and `AllowDuplicateNames` as switches); `.error` means the call reports an error (what is left in the
 destination is not modelled then: C14 only speaks about successful calls; every semantic error
 is fatal under the default options, errors.go:62 `isFatalError`).
 
@@ -58,7 +59,17 @@ deriving Repr, DecidableEq, Inhabited
 structure UOpts where
   /-- `jsonv1.UnmarshalArrayFromAnyLength` -/
   arrayAnyLen : Bool := false
+  /-- `jsontext.AllowDuplicateNames`: no duplicate-name check anywhere (neither in the object loops of
+  struct/map/any — arshal_default.go:1017-1021, :1335, :1361 — nor in the tokenizer while a value is
+  skipped or pre-read with `ReadValue`); a repeated name is unmarshaled INTO what the earlier member
+  left (struct field in place, map entry copy-merge-store, and for `any` the untyped fast path is
+  disabled (:1905) so the generic path — map[string]any / []any arshalers — runs, which merges). -/
+  allowDup : Bool := false
 deriving Repr, Inhabited
+
+/-- The tokenizer accepts the value `j` while skipping / pre-reading it: no repeated member name
+inside, unless duplicate names are allowed. -/
+def skipOK (o : UOpts) (j : JTree) : Bool := o.allowDup || j.dupFree
 
 abbrev Dec := JTree → GoVal → Except Err GoVal
 
@@ -80,19 +91,19 @@ def unmBool : JTree → Except Err GoVal
 /-- `ReadValue` (used by the string, int, uint and float arshalers, not by bool) consumes and
 validates the whole JSON value before the kind switch, so a duplicate name inside a value of the
 wrong kind is reported as the (syntactic) duplicate-name error rather than the kind mismatch. -/
-def wrongKind (j : JTree) : Err := if j.dupFree then .kind else .dup
+def wrongKind (o : UOpts) (j : JTree) : Err := if skipOK o j then .kind else .dup
 
-def unmString : JTree → Except Err GoVal
+def unmString (o : UOpts) : JTree → Except Err GoVal
   | .null => .ok (.str [])
   | .str s => .ok (.str s)
-  | j => .error (wrongKind j)
+  | j => .error (wrongKind o j)
 
-def unmFloat : JTree → Except Err GoVal
+def unmFloat (o : UOpts) : JTree → Except Err GoVal
   | .null => .ok (.float [0x30])
   | .num l => .ok (.float l)
-  | j => .error (wrongKind j)
+  | j => .error (wrongKind o j)
 
-def unmInt (bits : Nat) : JTree → Except Err GoVal
+def unmInt (o : UOpts) (bits : Nat) : JTree → Except Err GoVal
   | .null => .ok (.int 0)
   | .num l =>
     let neg := l.head? == some 0x2d
@@ -102,15 +113,15 @@ def unmInt (bits : Nat) : JTree → Except Err GoVal
       let maxInt := 2 ^ (bits - 1)
       if (neg && n > maxInt) || (!neg && n > maxInt - 1) then .error .range
       else .ok (.int (if neg then -(n : Int) else (n : Int)))
-  | j => .error (wrongKind j)
+  | j => .error (wrongKind o j)
 
-def unmUint (bits : Nat) : JTree → Except Err GoVal
+def unmUint (o : UOpts) (bits : Nat) : JTree → Except Err GoVal
   | .null => .ok (.uint 0)
   | .num l =>
     match parseNat l with
     | none => .error .numSyntax
     | some n => if n > 2 ^ bits - 1 then .error .range else .ok (.uint n)
-  | j => .error (wrongKind j)
+  | j => .error (wrongKind o j)
 
 /-! ### Generic loops (parameterised by the element decoder) -/
 
@@ -127,32 +138,32 @@ def elemsFresh (f : Dec) (z : GoVal) : List JTree → Except Err (List GoVal)
 
 /-- Array element loop for an array type of length `n`: decode into zeroed elements, skip surplus
 elements (SkipValue still rejects duplicate names), zero-fill missing ones. -/
-def arrayElems (f : Dec) (z : GoVal) : Nat → List JTree → Except Err (List GoVal)
+def arrayElems (o : UOpts) (f : Dec) (z : GoVal) : Nat → List JTree → Except Err (List GoVal)
   | 0, [] => .ok []
-  | 0, x :: r => if x.dupFree then arrayElems f z 0 r else .error .dup
+  | 0, x :: r => if skipOK o x then arrayElems o f z 0 r else .error .dup
   | n+1, [] => .ok (List.replicate (n+1) z)
   | n+1, x :: r =>
     match f x z with
     | .error e => .error e
     | .ok v =>
-      match arrayElems f z n r with
+      match arrayElems o f z n r with
       | .error e => .error e
       | .ok vs => .ok (v :: vs)
 
 /-- Object member loop shared by maps and structs.  `dec n` is the decoder of the destination
 named `n` (`none`: unknown struct member, skipped), `zeroOf n` its zero value (used when a map has
 no entry yet), `seen` the names read so far in this object, `m` the destination so far. -/
-def objFold (dec : Bytes → Option Dec) (zeroOf : Bytes → GoVal) :
+def objFold (o : UOpts) (dec : Bytes → Option Dec) (zeroOf : Bytes → GoVal) :
     List (Bytes × JTree) → List Bytes → List (Bytes × GoVal) → Except Err (List (Bytes × GoVal))
   | [], _, m => .ok m
   | (n, j) :: r, seen, m =>
-    if seen.contains n then .error .dup else
+    if !o.allowDup && seen.contains n then .error .dup else
     match dec n with
-    | none => if j.dupFree then objFold dec zeroOf r (n :: seen) m else .error .dup
+    | none => if skipOK o j then objFold o dec zeroOf r (n :: seen) m else .error .dup
     | some f =>
       match f j ((alookup n m).getD (zeroOf n)) with
       | .error e => .error e
-      | .ok v => objFold dec zeroOf r (n :: seen) (aset n v m)
+      | .ok v => objFold o dec zeroOf r (n :: seen) (aset n v m)
 
 /-! ### `any` -/
 
@@ -164,73 +175,73 @@ def isSliceV : GoVal → Bool | .nilSlice => true | .sliceOf _ => true | _ => fa
 /-- Error of unmarshaling `j` into a held dynamic value `dv` that does not accept its kind:
 the arshaler of the dynamic type decides (float64/string read the whole value first, see
 `wrongKind`; bool, []any, map[string]any read one token). -/
-def heldMismatch (j : JTree) (dv : GoVal) : Err :=
-  if dv.dynType.isSome then (if isFloatV dv || isStrV dv then wrongKind j else .kind) else .unmodelled
+def heldMismatch (o : UOpts) (j : JTree) (dv : GoVal) : Err :=
+  if dv.dynType.isSome then (if isFloatV dv || isStrV dv then wrongKind o j else .kind) else .unmodelled
 
 /-- Check of the dynamic value held by a non-nil interface against the JSON kind. -/
-def anyPrior (j : JTree) (p : GoVal) (accept : GoVal → Bool) : Except Err Unit :=
+def anyPrior (o : UOpts) (j : JTree) (p : GoVal) (accept : GoVal → Bool) : Except Err Unit :=
   match p with
   | .nilIface => .ok ()
-  | .ifaceOf dv => if accept dv then .ok () else .error (heldMismatch j dv)
+  | .ifaceOf dv => if accept dv then .ok () else .error (heldMismatch o j dv)
   | _ => .error .illTyped
 
 mutual
 /-- Unmarshal into a destination of type `any` holding `p` (`nilIface` or `ifaceOf dv`). -/
-def unmAny : JTree → GoVal → Except Err GoVal
+def unmAny (o : UOpts) : JTree → GoVal → Except Err GoVal
   | .null, _ => .ok .nilIface
   | .bool b, p =>
-    match anyPrior (.bool b) p isBoolV with
+    match anyPrior o (.bool b) p isBoolV with
     | .error e => .error e
     | .ok _ => .ok (.ifaceOf (.bool b))
   | .num l, p =>
-    match anyPrior (.num l) p isFloatV with
+    match anyPrior o (.num l) p isFloatV with
     | .error e => .error e
     | .ok _ => .ok (.ifaceOf (.float l))
   | .str s, p =>
-    match anyPrior (.str s) p isStrV with
+    match anyPrior o (.str s) p isStrV with
     | .error e => .error e
     | .ok _ => .ok (.ifaceOf (.str s))
   | .arr xs, p =>
-    match anyPrior (.arr xs) p isSliceV with
+    match anyPrior o (.arr xs) p isSliceV with
     | .error e => .error e
     | .ok _ =>
-      match unmAnyL xs with
+      match unmAnyL o xs with
       | .error e => .error e
       | .ok vs => .ok (.ifaceOf (.sliceOf vs))
   | .obj ms, p =>
     match p with
     | .nilIface =>
-      match unmAnyM ms [] [] with
+      match unmAnyM o ms [] [] with
       | .error e => .error e
       | .ok m => .ok (.ifaceOf (.mapOf m))
     | .ifaceOf .nilMap =>
-      match unmAnyM ms [] [] with
+      match unmAnyM o ms [] [] with
       | .error e => .error e
       | .ok m => .ok (.ifaceOf (.mapOf m))
     | .ifaceOf (.mapOf m0) =>
-      match unmAnyM ms [] m0 with
+      match unmAnyM o ms [] m0 with
       | .error e => .error e
       | .ok m => .ok (.ifaceOf (.mapOf m))
-    | .ifaceOf dv => .error (heldMismatch (.obj ms) dv)
+    | .ifaceOf dv => .error (heldMismatch o (.obj ms) dv)
     | _ => .error .illTyped
-/-- `elemsFresh unmAny nilIface` -/
-def unmAnyL : List JTree → Except Err (List GoVal)
+/-- `elemsFresh (unmAny o) nilIface` -/
+def unmAnyL (o : UOpts) : List JTree → Except Err (List GoVal)
   | [] => .ok []
   | x :: r =>
-    match unmAny x .nilIface with
+    match unmAny o x .nilIface with
     | .error e => .error e
     | .ok v =>
-      match unmAnyL r with
+      match unmAnyL o r with
       | .error e => .error e
       | .ok vs => .ok (v :: vs)
-/-- `objFold (fun _ => some unmAny) (fun _ => nilIface)` -/
-def unmAnyM : List (Bytes × JTree) → List Bytes → List (Bytes × GoVal) → Except Err (List (Bytes × GoVal))
+/-- `objFold o (fun _ => some (unmAny o)) (fun _ => nilIface)` -/
+def unmAnyM (o : UOpts) : List (Bytes × JTree) → List Bytes → List (Bytes × GoVal) → Except Err (List (Bytes × GoVal))
   | [], _, m => .ok m
   | (n, j) :: r, seen, m =>
-    if seen.contains n then .error .dup else
-    match unmAny j ((alookup n m).getD .nilIface) with
+    if !o.allowDup && seen.contains n then .error .dup else
+    match unmAny o j ((alookup n m).getD .nilIface) with
     | .error e => .error e
-    | .ok v => unmAnyM r (n :: seen) (aset n v m)
+    | .ok v => unmAnyM o r (n :: seen) (aset n v m)
 end
 
 /-! ### All types -/
@@ -245,10 +256,10 @@ def fieldZero (fs : List (Bytes × GoType)) (n : Bytes) : GoVal :=
 mutual
 def unm (o : UOpts) : GoType → JTree → GoVal → Except Err GoVal
   | .bool, j, _ => unmBool j
-  | .int b, j, _ => unmInt b j
-  | .uint b, j, _ => unmUint b j
-  | .float64, j, _ => unmFloat j
-  | .string, j, _ => unmString j
+  | .int b, j, _ => unmInt o b j
+  | .uint b, j, _ => unmUint o b j
+  | .float64, j, _ => unmFloat o j
+  | .string, j, _ => unmString o j
   | .slice t, j, _ =>
     match j with
     | .null => .ok .nilSlice
@@ -261,7 +272,7 @@ def unm (o : UOpts) : GoType → JTree → GoVal → Except Err GoVal
     match j with
     | .null => .ok (.arrayOf (List.replicate n t.zero))
     | .arr xs =>
-      match arrayElems (unm o t) t.zero n xs with
+      match arrayElems o (unm o t) t.zero n xs with
       | .error e => .error e
       | .ok vs => if xs.length != n && !o.arrayAnyLen then .error .arrayLen else .ok (.arrayOf vs)
     | _ => .error .kind
@@ -271,11 +282,11 @@ def unm (o : UOpts) : GoType → JTree → GoVal → Except Err GoVal
     | .obj ms =>
       match p with
       | .nilMap =>
-        match objFold (fun _ => some (unm o t)) (fun _ => t.zero) ms [] [] with
+        match objFold o (fun _ => some (unm o t)) (fun _ => t.zero) ms [] [] with
         | .error e => .error e
         | .ok m => .ok (.mapOf m)
       | .mapOf m0 =>
-        match objFold (fun _ => some (unm o t)) (fun _ => t.zero) ms [] m0 with
+        match objFold o (fun _ => some (unm o t)) (fun _ => t.zero) ms [] m0 with
         | .error e => .error e
         | .ok m => .ok (.mapOf m)
       | _ => .error .illTyped
@@ -300,12 +311,12 @@ def unm (o : UOpts) : GoType → JTree → GoVal → Except Err GoVal
     | .obj ms =>
       match p with
       | .structOf fvs =>
-        match objFold (fieldDec o fs) (fieldZero fs) ms [] fvs with
+        match objFold o (fieldDec o fs) (fieldZero fs) ms [] fvs with
         | .error e => .error e
         | .ok m => .ok (.structOf m)
       | _ => .error .illTyped
     | _ => .error .kind
-  | .any, j, p => unmAny j p
+  | .any, j, p => unmAny o j p
 /-- Decoder of the struct field with JSON name `n` (exact match), if any. -/
 def fieldDec (o : UOpts) : List (Bytes × GoType) → Bytes → Option Dec
   | [], _ => none
